@@ -433,6 +433,9 @@ type vf13Rec struct {
 	Present   []string            `json:"present"`   // components present in the fresh Core of the new conf
 	PresentL  []string            `json:"presentLive"`
 	Detail    map[string]string   `json:"detail,omitempty"`
+	// Dir: "fwd" = base -> changed configuration, "rev" = the same change undone on a live Core
+	// that was started with the changed configuration (e.g. a server switched ON by the reload)
+	Dir string `json:"dir"`
 }
 
 func vf13Snapshots(p *Core) (map[string]string, map[string][]string) {
@@ -651,10 +654,15 @@ func TestVerif_C13_Reload(t *testing.T) {
 			out.Emit(rec)
 			continue
 		}
+		rec.Dir = "fwd"
 		vf13Experiment(base, nc, rec)
 		out.Emit(rec)
 		if rec.Skipped == "" {
 			cands = append(cands, cand{f, alt})
+			// the same parameter, the other way round: start with the alternative value, reload to the base value
+			rev := &vf13Rec{Kind: "param", Param: tag, Params: []string{tag}, Dir: "rev"}
+			vf13Experiment(nc, base, rev)
+			out.Emit(rev)
 		}
 	}
 	// the set of path configurations, alone and together with each global parameter of PATHPAIRS
